@@ -14,6 +14,12 @@ void harness(void) {
 	VF_NONDET_OBJ(vf_rb_shape_t, shape);
 	r_buf_p r = vf_rb_build(&shape);
 	VF_ASSUME(vf_rb_wf(r));
+#ifdef VF_RB_CASE_INDEX	/* case split over the writer's table index (one job per value 0..4) */
+	VF_ASSUME(r->iov_index == VF_RB_CASE_INDEX);
+#endif
+#ifdef VF_RB_CASE_FRAG	/* case split over RBUF_F_FRAG (0 / 1) */
+	VF_ASSUME(((r->flags & RBUF_F_FRAG) != 0) == (VF_RB_CASE_FRAG != 0));
+#endif
 
 #if defined(VF_FN_r_buf_wbuf_get)
 	VF_NONDET(size_t, min_buf_size);
